@@ -2,6 +2,8 @@
    Only ExtrOcamlBasic is used: bool, option, unit, prod, list, sumbool, sumor are mapped to
    the OCaml types; nat, N, Z, positive stay the extracted inductive datatypes. *)
 Require Import ExtrOcamlBasic.
-Require Import Base RW.
+Require Import Base RW Return Chain.
 Extraction Language OCaml.
-Extraction "model.ml" RW.run RW.spec_ok RW.valid_op.
+Separate Extraction RW.run RW.spec_ok RW.valid_op
+  Return.render Return.table Return.apply_wops Return.supported
+  Chain.serve Chain.chain_spec_ok.
